@@ -90,6 +90,7 @@ Record Run := {
   r_fin : list Z;              (* verify_data of the peer's Finished *)
   r_binder : list Z;
   r_ticket_chain : option (list Z);   (* client chain stored inside the resumption ticket *)
+  r_ticket_srp : option (list Z);     (* SRP user name stored inside the (TLS <= 1.2) ticket / cached session *)
   r_srp_user : option (list Z);       (* server: ClientHello.srp_username; client: own user name *)
   r_srp_known : bool;                 (* verifierDB has that user *)
   r_own_chain : option (list Z);      (* this endpoint's own certificate chain *)
@@ -400,6 +401,32 @@ Definition server12 (O : Orc) (r : Run) : res Session :=
   Ok {| s_server_chain := if kx_has_cert (r_kx r) then r_own_chain r else None;
         s_client_chain := chain; s_srp_user := srp; s_dc := false; s_psk := None |}.
 
+(* ---- flow 6: server <= TLS 1.2, resumption from a session ticket / the session cache:
+        _serverGetClientHello 4064-4270, _ticket_to_session.  r_psk = Some id: the ticket decrypts
+        under a current ticket key and is not expired (or the session id is in the cache) and the
+        stored session is resumable with an acceptable suite; None: a full handshake follows.
+        The identities stored in the ticket (client chain, and since /repo 19b1cb2 the SRP user
+        name) become the connection's identities only after the peer's Finished verified under the
+        ticket's master secret.  Result None = resumption declined. ------------------------------- *)
+Definition handshake_failure := 40.
+
+Definition server12_resume (O : Orc) (r : Run) : res (option Session) :=
+  match r_psk r with
+  | None => Ok None
+  | Some _ =>
+    let go :=
+      _ <- opt_alert (r_kx_alert r) ;;      (* other consistency checks with the ClientHello (SNI, EtM, EMS, renegotiation): input *)
+      _ <- records r ;;
+      _ <- finished O FIN_C12 r (alert decrypt_error) ;;
+      Ok (Some {| s_server_chain := None; s_client_chain := r_ticket_chain r; s_srp_user := r_ticket_srp r;
+                  s_dc := false; s_psk := None |}) in
+    match r_srp_user r, r_ticket_srp r with
+    | Some _, None => Ok None                        (* 4114-4120: user-less ticket with an SRP hello is declined *)
+    | Some u, Some u' => if list_eqb u u' then go else alert handshake_failure
+    | None, _ => go
+    end
+  end.
+
 (* ---- _handshakeWrapperAsync 4998-5022 with checker.Checker.__call__ (non-resumed) ----- *)
 (* since /repo 6da5459 the wrapper turns protocol exceptions raised directly by the handshake
    code into alerts: TLSIllegalParameterException -> illegal_parameter, TLSDecryptionFailed ->
@@ -463,6 +490,12 @@ Definition run_flow (flow : Z) (O : Orc) (r : Run) : res Session :=
   else if flow =? 2 then server12 O r
   else if flow =? 3 then client13 O r
   else if flow =? 4 then server13 O r
+  else if flow =? 6 then
+    o <- server12_resume O r ;;
+    match o with
+    | Some s => Ok s
+    | None => Err (OtherExn 6000)      (* declined: the harness evaluates the full handshake as flow 2 instead *)
+    end
   else
     c <- server_pha O r ;;
     Ok {| s_server_chain := r_own_chain r; s_client_chain := c; s_srp_user := None; s_dc := false; s_psk := None |}.
@@ -503,7 +536,7 @@ Definition run0 : Run :=
      r_cv := Some (Some (8, 4), [7]); r_ske := None; r_cr := [1]; r_sr := [2]; r_premaster := [];
      r_tr_cv := [10]; r_tr_fin := [11]; r_tr_binder := [9]; r_prf := Some "sha256"%string;
      r_offered := [(8, 4)]; r_valid := [(8, 4)]; r_dc_offered := []; r_kx_alert := None;
-     r_rec_ok := true; r_fin := [3]; r_binder := []; r_ticket_chain := None; r_srp_user := None;
+     r_rec_ok := true; r_fin := [3]; r_binder := []; r_ticket_chain := None; r_ticket_srp := None; r_srp_user := None;
      r_srp_known := false; r_own_chain := None; r_srv_scheme := Some "rsa_pss_rsae_sha256"%string;
      r_ctx_ok := true; r_cert_required := false |}.
 
@@ -513,7 +546,7 @@ Definition set_cv (r : Run) (cv : option (option scheme * list Z)) : Run :=
      r_tr_cv := r_tr_cv r; r_tr_fin := r_tr_fin r; r_tr_binder := r_tr_binder r; r_prf := r_prf r;
      r_offered := r_offered r; r_valid := r_valid r; r_dc_offered := r_dc_offered r;
      r_kx_alert := r_kx_alert r; r_rec_ok := r_rec_ok r; r_fin := r_fin r; r_binder := r_binder r;
-     r_ticket_chain := r_ticket_chain r; r_srp_user := r_srp_user r; r_srp_known := r_srp_known r;
+     r_ticket_chain := r_ticket_chain r; r_ticket_srp := r_ticket_srp r; r_srp_user := r_srp_user r; r_srp_known := r_srp_known r;
      r_own_chain := r_own_chain r; r_srv_scheme := r_srv_scheme r; r_ctx_ok := r_ctx_ok r;
      r_cert_required := r_cert_required r |}.
 
@@ -530,6 +563,6 @@ Definition run_w2 : Run :=
      r_cv := None; r_ske := None; r_cr := [1]; r_sr := [2]; r_premaster := [];
      r_tr_cv := [10]; r_tr_fin := [11]; r_tr_binder := []; r_prf := None;
      r_offered := []; r_valid := []; r_dc_offered := []; r_kx_alert := None;
-     r_rec_ok := true; r_fin := [3]; r_binder := []; r_ticket_chain := None;
+     r_rec_ok := true; r_fin := [3]; r_binder := []; r_ticket_chain := None; r_ticket_srp := None;
      r_srp_user := Some [97;100;109;105;110]; r_srp_known := false; r_own_chain := Some [1];
      r_srv_scheme := None; r_ctx_ok := true; r_cert_required := false |}.
